@@ -14,6 +14,14 @@ properties, naive = the same wall clock tagged UTC for every function; (b) every
 Python's own datetime / timedelta arithmetic on aware values (`pyref`) and the real result must be the same
 value (error classes are left to the model correspondence).
 
+Histories (statement reuse across operand kinds): ONE parsed statement `$a op $b` / `$a.prop` - and ONE lambda body,
+`$rows.select($[0] op $[1])`, `$rows.select($ op $ref)` - is evaluated over a sequence of operand tuples whose kinds
+change (null, ints, strings, timespans, datetimes without zone, aware datetimes; datetimes as equal / neighbouring
+instants at different offsets) for every C20 operator and property (= != < <= > >= + -, .utc .offset .timestamp).
+Oracle on the real code alone: position by position the result equals what a freshly parsed statement gives for that
+tuple alone (history independence) and, for two datetimes under a comparison, what the instants say; correspondence:
+the compiled model runs the same history (Model/DateTimeHist.runHistory).
+
 The process runs with TZ=VRF-05:45 (a fixed UTC+05:45 host zone), so code that reads a naive value as host-local
 time instead of UTC gives a visibly different answer."""
 import datetime as pdt
@@ -35,13 +43,18 @@ from dateutil import tz as dtz  # noqa: E402
 from yaql.language import factory  # noqa: E402
 
 ID = 'C20'
-LEAN_MODULES = ['Yaql.Props.C20', 'Yaql.Props.C20Cal', 'Yaql.Props.C20Gen', 'Yaql.Props.C20Float', 'Yaql.Props.FloatRound']
+LEAN_MODULES = ['Yaql.Props.C20', 'Yaql.Props.C20Cal', 'Yaql.Props.C20Gen', 'Yaql.Props.C20Float', 'Yaql.Props.FloatRound',
+                'Yaql.Props.C20Hist']
 REQUIRED_THEOREMS = [
     'Yaql.Props.C20.add_sub', 'Yaql.Props.C20.compare_instants', 'Yaql.Props.C20.utc_same_instant',
     'Yaql.Props.C20.timestamp_roundtrip', 'Yaql.Props.C20.naive_is_utc', 'Yaql.Props.C20.naive_is_utc_fields',
     'Yaql.Props.C20.units', 'Yaql.Props.C20.range_errors',
     'Yaql.Props.C20Cal.ord2ymd_ymd2ord', 'Yaql.Props.C20Cal.ymd2ord_ord2ymd', 'Yaql.Props.C20Cal.build_fields',
     'Yaql.Props.C20Cal.date_time_split',
+    'Yaql.Props.C20.history_independent', 'Yaql.Props.C20.history_getElem', 'Yaql.Props.C20.history_compare_instants',
+    'Yaql.Props.C20.history_add_sub', 'Yaql.Props.C20.history1_independent', 'Yaql.Props.C20.lastWinner_breaks_equality',
+    'Yaql.Props.C20.lastWinner_breaks_rows', 'Yaql.Props.C20.lastWinner_exact', 'Yaql.Props.C20.exact_of_not_equality',
+    'Yaql.Props.C20.not_exact_eq',
     'Yaql.Props.C20Gen.datetime_params_convert', 'Yaql.Props.C20Gen.modelled_signatures',
     'Yaql.Props.C20.units_float', 'Yaql.Props.C20.tsUnitF_single', 'Yaql.Props.C20.tsUnitF_exact', 'Yaql.Props.C20.tsUnitF_mono',
     'Yaql.Props.C20.tsUnitF_value', 'Yaql.Props.C20.timestamp_float', 'Yaql.Props.C20.timestamp_float_roundtrip',
@@ -1188,6 +1201,259 @@ def shrink_law(case, fn):
     return case
 
 
+# ------------------------------------------------------------------ histories: ONE expression node, many operand kinds
+
+HIST_OPS2 = ('=', '!=', '<', '<=', '>', '>=', '+', '-')
+HIST_OPS1 = ('utc', 'offset', 'timestamp')
+HIST_STRS = ('', 'a', 'ab', 'b', 'A', 'z\u00e9', '2021-03-04')
+
+
+def H_null():
+    return dict(k='null')
+
+
+def H_str(x):
+    return dict(k='s', s=x)
+
+
+def gen_hist_scalar(rng, kind):
+    if kind == 'null':
+        return H_null()
+    if kind == 'i':
+        return L_i(rng.choice([0, 1, -1, 2, 7, 10 ** 6, rng.randrange(-50, 50), rng.randrange(-10 ** 18, 10 ** 18)]), var=True)
+    if kind == 's':
+        return H_str(rng.choice(HIST_STRS))
+    if kind == 'ts':
+        return L_ts(gen_ts_value(rng))
+    return gen_dt_leaf(rng)
+
+
+def gen_dt_pair(rng):
+    """two datetimes: 70 % the same or a neighbouring instant written at another offset, at least one side often
+    WITHOUT zone (a host value)"""
+    a = gen_dt_leaf(rng)
+    if rng.random() < 0.5:
+        a = L_dt(a['w'], None, 'naive', 0)
+    b = gen_dt_leaf(rng)
+    if rng.random() < 0.7:
+        o2 = gen_off(rng, allow_none=a['o'] is not None and rng.random() < 0.5)
+        w2 = inst(a) + rng.choice([0, 0, 0, 1, -1]) + (o2 or 0)
+        if 0 <= w2 < MAXWALL:
+            b = L_dt(w2, o2, rng.choice(OFF_FLAVOURS) if o2 is not None else 'naive', 0)
+    return [a, b] if rng.random() < 0.5 else [b, a]
+
+
+def gen_history(rng, op, form):
+    """operand tuples for ONE node: kinds change along the history (null, int, string, timespan, datetime
+    without / with zone); datetimes come as equal instants at different offsets"""
+    n = rng.choice([2, 2, 3, 3, 4, 5, 6])
+    rows = []
+    if op in HIST_OPS1:
+        for _ in range(n):
+            rows.append([gen_dt_leaf(rng)])
+        return rows
+    ref = None
+    for _ in range(n):
+        r = rng.random()
+        if r < 0.45:
+            pair = gen_dt_pair(rng)
+        elif r < 0.75:
+            k = rng.choice(['null', 'i', 's', 'ts', 'ts'])
+            pair = [gen_hist_scalar(rng, k), gen_hist_scalar(rng, k)]
+            if rng.random() < 0.4:
+                pair[1] = dict(pair[0])
+        elif r < 0.88 and op in ('+', '-'):
+            pair = [gen_dt_leaf(rng), L_ts(rng.randrange(-400 * DAY, 400 * DAY))]
+            if rng.random() < 0.3:
+                pair.reverse()
+        else:
+            pair = [gen_hist_scalar(rng, rng.choice(['null', 'i', 's', 'ts', 'dt'])),
+                    gen_hist_scalar(rng, rng.choice(['null', 'i', 's', 'ts', 'dt']))]
+        if form == 'ref':
+            # `$rows.select($ op $ref)`: one right-hand operand for the whole column
+            if ref is None:
+                ref = gen_dt_leaf(rng) if rng.random() < 0.8 else pair[1]
+            if pair[0]['k'] == 'dt' and ref['k'] == 'dt' and rng.random() < 0.7:
+                o2 = gen_off(rng)
+                w2 = inst(ref) + rng.choice([0, 0, 1, -1]) + (o2 or 0)
+                if 0 <= w2 < MAXWALL:
+                    pair[0] = L_dt(w2, o2, rng.choice(OFF_FLAVOURS) if o2 is not None else 'naive', 0)
+            pair[1] = ref
+        rows.append(pair)
+    return rows
+
+
+def hist_value(leaf):
+    k = leaf['k']
+    if k == 'null':
+        return None
+    if k == 's':
+        return leaf['s']
+    if k == 'i':
+        return leaf['n']
+    if k == 'ts':
+        return mk_ts(leaf['us'])
+    return mk_dt(leaf['w'], leaf['o'], leaf['fl'], leaf['fold'])
+
+
+def hist_model_operand(leaf):
+    k = leaf['k']
+    if k == 'null':
+        return None
+    if k == 's':
+        return {'s': [ord(c) for c in leaf['s']]}
+    if k == 'i':
+        return {'i': leaf['n']}
+    if k == 'ts':
+        return {'ts': leaf['us']}
+    return {'dt': [leaf['w'], leaf['o']]}
+
+
+def hist_show(leaf):
+    k = leaf['k']
+    if k == 'dt':
+        return show_in(leaf)
+    if k == 'ts':
+        return 'timespan(%d us)' % leaf['us']
+    return repr(hist_value(leaf))
+
+
+def hist_canon(v):
+    if v is None:
+        return ['null']
+    if isinstance(v, str):
+        return ['s', v]
+    return canon(v)
+
+
+def hist_outcome(fn):
+    try:
+        return fn()
+    except Exception as e:  # noqa
+        n = type(e).__name__
+        return ['err', 'NoMatching' if n.startswith('NoMatching') else n]
+
+
+def hist_text(op, form):
+    if op in HIST_OPS1:
+        return '$a.%s' % op if form == 'stmt' else '$rows.select($[0].%s)' % op
+    if form == 'stmt':
+        return '$a %s $b' % op
+    if form == 'rows':
+        return '$rows.select($[0] %s $[1])' % op
+    return '$rows.select($ %s $ref)' % op
+
+
+def hist_alone(op, row):
+    """the operand tuple evaluated ALONE: a freshly parsed statement that has never seen anything else"""
+    c = CTX.create_child_context()
+    c['a'] = hist_value(row[0])
+    if len(row) > 1:
+        c['b'] = hist_value(row[1])
+    text = hist_text(op, 'stmt')
+    return hist_outcome(lambda: hist_canon(ENGINE(text).evaluate(context=c)))
+
+
+def hist_real(op, form, rows):
+    """results of ONE parsed statement over the history -> list of canonical results (one per tuple)"""
+    text = hist_text(op, form)
+    stmt = ENGINE(text)
+    if form == 'stmt':
+        out = []
+        for row in rows:
+            c = CTX.create_child_context()
+            c['a'] = hist_value(row[0])
+            if len(row) > 1:
+                c['b'] = hist_value(row[1])
+            out.append(hist_outcome(lambda: hist_canon(stmt.evaluate(context=c))))
+        return out
+    c = CTX.create_child_context()
+    if form == 'ref':
+        c['rows'] = tuple(hist_value(r[0]) for r in rows)
+        c['ref'] = hist_value(rows[0][1])
+    else:
+        c['rows'] = tuple(tuple(hist_value(x) for x in r) for r in rows)
+    r = hist_outcome(lambda: [hist_canon(x) for x in stmt.evaluate(context=c)])
+    if r and r[0] == 'err' and isinstance(r[1], str):
+        return [r] * len(rows)          # the whole select raised
+    return r
+
+
+def hist_model_value(m):
+    if m is not None and 's' in m:
+        return ['s', ''.join(chr(c) for c in m['s'])]
+    return model_value(m)
+
+
+def hist_law(op, row):
+    """what the statement says about this tuple alone (both datetimes, comparison): the instants decide"""
+    if op in ('=', '!=', '<', '<=', '>', '>=') and len(row) == 2 and row[0]['k'] == 'dt' and row[1]['k'] == 'dt':
+        ia, ib = inst(row[0]), inst(row[1])
+        return ['b', {'=': ia == ib, '!=': ia != ib, '<': ia < ib, '<=': ia <= ib, '>': ia > ib, '>=': ia >= ib}[op]]
+    return None
+
+
+def judge_history(case, ask_hist):
+    """-> (kind, key, message) or None"""
+    op, form, rows = case['op'], case['form'], case['rows']
+    alone = [hist_alone(op, r) for r in rows]
+    if form != 'stmt':
+        # an error in one row aborts the whole select: keep the rows that evaluate alone
+        keep = [i for i, a in enumerate(alone) if a[0] != 'err']
+        rows = [rows[i] for i in keep]
+        alone = [alone[i] for i in keep]
+        if not rows:
+            return None
+    real = hist_real(op, form, rows)
+    text = hist_text(op, form)
+
+    def tell(i):
+        ops = ', '.join('%s = %s' % (n, hist_show(x)) for n, x in zip('ab', rows[i]))
+        before = '; '.join('(' + ', '.join(hist_show(x) for x in r) + ')' for r in rows[:i]) or 'nothing'
+        return ops, before
+    if len(real) != len(rows):
+        return ('oracle', 'history-dependent', '%s over %d rows returned %r' % (text, len(rows), real))
+    for i, (r, a) in enumerate(zip(real, alone)):
+        law = hist_law(op, rows[i])
+        ops, before = tell(i)
+        if law is not None and r != law and r[0] != 'err':
+            return ('oracle', 'compare-instants',
+                    'equality and ordering compare instants: the parsed statement %s, evaluated before with %s, gives %r for '
+                    '%s; the instants say %r' % (text, before, r[1], ops, law[1]))
+        if not same_hist(r, a):
+            return ('oracle', 'history-dependent',
+                    'the parsed statement %s, evaluated before with %s, gives %s for %s; a freshly parsed statement gives %s '
+                    'for the same operands' % (text, before, show(r) if r[0] != 'err' else r, ops, show(a) if a[0] != 'err' else a))
+    if ask_hist is not None:
+        model = ask_hist(op, rows)
+        for i, (r, m) in enumerate(zip(real, model)):
+            mv = hist_model_value(m)
+            if mv is not None and not (same(r, mv) if r[0] != 'err' else r == mv):
+                ops, before = tell(i)
+                return ('mismatch', 'model-vs-code', '%s, history position %d (%s; before: %s): real %r, model %r' % (
+                    text, i, ops, before, r, mv))
+    return None
+
+
+def same_hist(r, a):
+    if r[0] == 'fl' and a[0] == 'fl':
+        return struct.pack('>d', r[1]) == struct.pack('>d', a[1])
+    return r == a
+
+
+def shrink_history(case, fails):
+    rows = case['rows']
+    changed = True
+    while changed and len(rows) > 1:
+        changed = False
+        for i in range(len(rows)):
+            cand = dict(case, rows=rows[:i] + rows[i + 1:])
+            if fails(cand):
+                case, rows, changed = cand, cand['rows'], True
+                break
+    return case
+
+
 # ------------------------------------------------------------------ run
 
 def run(env, res):
@@ -1200,7 +1466,9 @@ def run(env, res):
                 'timespan(...) constructors, wall clocks over years 1..9999 biased to boundaries, leap days and '
                 'microsecond extremes, offsets in (-24h, 24h) by minutes (some by seconds/microseconds), signed '
                 'component timespans up to +-999999999 days, int/float timestamps; plus instances of each law of '
-                'the statement on leaf inputs.  distinct = distinct tree / law input; non-trivial = the tree has an '
+                'the statement on leaf inputs; plus histories of one parsed statement / one lambda body over operand tuples of '
+                'changing kinds (null, int, string, timespan, zoneless and aware datetimes for equal instants) per operator and '
+                'property.  distinct = distinct tree / law input / history; non-trivial = the tree has an '
                 'operator or property applied to a value with a non-zero offset or no zone, or the law instance has one')
 
     def ask(trees):
@@ -1221,6 +1489,20 @@ def run(env, res):
         j2 = judge(small, ask([small])[0]) or j
         res.fail(j2[0], j2[1], j2[2], dict(kind='tree', tree=small))
 
+    def ask_hist(op, rows):
+        if op in HIST_OPS1:
+            req = dict(op1=op, rows=[[hist_model_operand(x) for x in r] for r in rows])
+        else:
+            req = dict(op=op, mode='off', rows=[[hist_model_operand(x) for x in r] for r in rows])
+        return drv.ask(dict(p='C20', host=HOST_OFF, hist=[req]))['h'][0]
+
+    ASK_HIST = ask_hist if drv is not None else None
+
+    def report_history(case, j):
+        small = shrink_history(case, lambda c: (judge_history(c, ASK_HIST) or ('', ''))[:2] == j[:2])
+        j2 = judge_history(small, ASK_HIST) or j
+        res.fail(j2[0], j2[1], j2[2], dict(kind='hist', case=small))
+
     def report_law(case, msg):
         fn = LAWS[case['law']]
         small = shrink_law(case, fn)
@@ -1231,6 +1513,13 @@ def run(env, res):
         rp = json.load(open(env['replay']))['case']
         if rp.get('section') == 'floatround':
             floatref.replay(env, res, rp)
+            return res
+        if rp['kind'] == 'hist':
+            res.case(common.digest(rp['case']), True, sample=rp['case'])
+            j = judge_history(rp['case'], ASK_HIST)
+            res.traces += 1
+            if j:
+                res.fail(j[0], j[1], j[2], rp)
             return res
         if rp['kind'] == 'tree':
             t = rp['tree']
@@ -1271,6 +1560,38 @@ def run(env, res):
         if len(res.failures) >= 8:
             break
 
+    # ---- histories: one parsed statement / one lambda body over operand tuples of changing kinds
+    hist_stats = dict(histories=0, tuples=0, forms={}, ops={}, kinds={}, dt_pairs_same_instant=0, after_other_kind=0)
+    n_hist = 700 if tier == 'quick' else 12000
+    for i in range(n_hist):
+        if len(res.failures) >= 8:
+            break
+        op = (HIST_OPS2 + HIST_OPS1)[i % 11] if i % 3 else rng.choice(('=', '!='))
+        form = rng.choice(['stmt', 'stmt', 'rows', 'ref']) if op in HIST_OPS2 else rng.choice(['stmt', 'rows'])
+        case = dict(op=op, form=form, rows=gen_history(rng, op, form))
+        hist_stats['histories'] += 1
+        hist_stats['tuples'] += len(case['rows'])
+        hist_stats['forms'][form] = hist_stats['forms'].get(form, 0) + 1
+        hist_stats['ops'][op] = hist_stats['ops'].get(op, 0) + 1
+        seen_other = False
+        for r in case['rows']:
+            kk = '/'.join(('dt-naive' if x['k'] == 'dt' and x['o'] is None else x['k']) for x in r)
+            hist_stats['kinds'][kk] = hist_stats['kinds'].get(kk, 0) + 1
+            if all(x['k'] == 'dt' for x in r):
+                if len(r) == 2 and inst(r[0]) == inst(r[1]) and r[0]['o'] != r[1]['o']:
+                    hist_stats['dt_pairs_same_instant'] += 1
+                hist_stats['after_other_kind'] += seen_other
+            else:
+                seen_other = True
+        nontriv = len(set(tuple(x['k'] for x in r) for r in case['rows'])) > 1 or any(
+            x['k'] == 'dt' and x['o'] != 0 for r in case['rows'] for x in r)
+        res.case(common.digest(case), nontriv, sample=case if i == 1 else None)
+        j = judge_history(case, ASK_HIST)
+        if drv is not None:
+            res.traces += 1
+        if j:
+            report_history(case, j)
+
     # ---- trees: model vs code, and python arithmetic vs code
     batch = 250
     done = 0
@@ -1297,7 +1618,7 @@ def run(env, res):
                     break
     fr_hist = floatref.run_section(env, res, ID, 500 if tier == 'quick' else 6000)
     res.extra['histogram'] = dict(constructs=dict(sorted(hist.items())), outcomes=dict(sorted(out_kinds.items())),
-                                  law_instances=law_hist, trees=done, floatround=fr_hist)
+                                  law_instances=law_hist, trees=done, floatround=fr_hist, histories=hist_stats)
     return res
 
 
@@ -1318,9 +1639,18 @@ LEVEL_TEXT = ('Lean 4 theorems over a code-shaped model of date_time.py on top o
               'bijection between the dates of years 1..9999 and their ordinals, so datetime(y, m, d, ...) is read back '
               'by the field properties and d.date + d.time = d.  That every datetime parameter '
               'of every definition registered by date_time.py is so declared is re-proved by the kernel over a table '
-              'regenerated from the live registrations.  The model is tied to the code by evaluating random '
+              'regenerated from the live registrations.  Under statement REUSE (C20Hist over Model/DateTimeHist: overload '
+              'resolution of = != < <= > >= + - across operand kinds null / int / string / timespan / datetime, and a per-node '
+              'state): the results of one expression node over any history of operand pairs are the results of the pairs alone '
+              '(history_independent), hence comparisons of datetimes are those of the instants at every position of every '
+              'history (history_compare_instants); a node that remembers its last overload breaks = / != (lastWinner_breaks_'
+              'equality / _rows) and is harmless exactly when every accepting overload is the resolved one (lastWinner_exact, '
+              'exact_of_not_equality, not_exact_eq).  The model is tied to the code by evaluating random '
               'expression trees on the real engine and on the compiled model and comparing exactly, and the laws are '
-              'also checked on real results alone and against Python\'s own aware datetime arithmetic.')
+              'also checked on real results alone and against Python\'s own aware datetime arithmetic; histories of ONE parsed '
+              'statement / ONE lambda body over operand tuples of changing kinds (zoneless host and aware datetimes for equal '
+              'instants among nulls, ints, strings, timespans) must give, position by position, what a freshly parsed statement '
+              'gives for that tuple alone, what the instants say, and what the model\'s history gives.')
 LEVEL_NOTE = ('trusted: Lean kernel; hand-written model Yaql/Model/DateTime.lean (offsets in microseconds, fixed-offset '
               'zones, calendar transcribed from CPython _pydatetime - proved to be a bijection dates <-> ordinals in C20Cal); the '
               'float-valued results (unit properties, .timestamp, ts / ts) are computed by the model as IEEE doubles '
